@@ -36,12 +36,15 @@ func Match(query CompFilter, co *CalendarObject) (matched bool, err error) {
 	if co.Data == nil || co.Data.Component == nil {
 		panic("request to process empty calendar object")
 	}
+	if query.IsNotDefined {
+		return co.Data.Component.Name != query.Name, nil
+	}
 	return match(query, co.Data.Component)
 }
 
 func match(filter CompFilter, comp *ical.Component) (bool, error) {
 	if comp.Name != filter.Name {
-		return filter.IsNotDefined, nil
+		return false, nil
 	}
 
 	var zeroDate time.Time
@@ -76,20 +79,24 @@ func match(filter CompFilter, comp *ical.Component) (bool, error) {
 }
 
 func matchCompFilter(filter CompFilter, comp *ical.Component) (bool, error) {
-	var matches []*ical.Component
+	if filter.IsNotDefined {
+		for _, child := range comp.Children {
+			if child.Name == filter.Name {
+				return false, nil
+			}
+		}
+		return true, nil
+	}
 
 	for _, child := range comp.Children {
 		match, err := match(filter, child)
 		if err != nil {
 			return false, err
 		} else if match {
-			matches = append(matches, child)
+			return true, nil
 		}
 	}
-	if len(matches) == 0 {
-		return filter.IsNotDefined, nil
-	}
-	return true, nil
+	return false, nil
 }
 
 func matchPropFilter(filter PropFilter, comp *ical.Component) (bool, error) {
@@ -97,6 +104,8 @@ func matchPropFilter(filter PropFilter, comp *ical.Component) (bool, error) {
 	field := comp.Props.Get(filter.Name)
 	if field == nil {
 		return filter.IsNotDefined, nil
+	} else if filter.IsNotDefined {
+		return false, nil
 	}
 
 	for _, paramFilter := range filter.ParamFilter {
